@@ -52,3 +52,134 @@ Qed.
 Theorem ids_not_reused cfg ops e :
   In e (live (final_spec cfg spec_init ops)) -> e_k e < count_of (e_mb e) (counts (final_spec cfg spec_init ops)).
 Proof. intros H. pose proof (final_spec_SInv cfg ops spec_init SInv_init) as [_ H2]. auto. Qed.
+
+(* ------------------------------------------------------------------ latest / read back *)
+From IV Require Import Proofs.StoreSpecLimits Proofs.MemStoreLimits.
+
+Definition res_of_last (l : list view) : res view :=
+  match last_opt l with Some v => Ok v | None => NotExist end.
+
+Lemma latest_is_last_spec cfg st mb :
+  snd (fst (exec_spec cfg st (Lst mb))) = OList (map view_of (box mb (live st))) /\
+  snd (fst (exec_spec cfg st (Get mb Latest))) = OGet (res_of_last (map view_of (box mb (live st)))).
+Proof.
+  split; [reflexivity|]. cbn [exec_spec fst snd]. unfold res_of_last. rewrite last_opt_map.
+  destruct (last_opt (box mb (live st))); reflexivity.
+Qed.
+
+Lemma run_spec_two cfg ops o1 o2 :
+  let st := final_spec cfg spec_init ops in
+  nth_error (map fst (run_spec cfg spec_init (ops ++ [o1; o2]))) (length ops) = Some (snd (fst (exec_spec cfg st o1))) /\
+  nth_error (map fst (run_spec cfg spec_init (ops ++ [o1; o2]))) (S (length ops)) =
+    Some (snd (fst (exec_spec cfg (fst (fst (exec_spec cfg st o1))) o2))).
+Proof.
+  intros st. rewrite run_spec_app, map_app. fold st.
+  assert (Hl : length (map fst (run_spec cfg spec_init ops)) = length ops) by (rewrite map_length; apply run_spec_length).
+  split.
+  - rewrite nth_error_app2 by lia. rewrite Hl, Nat.sub_diag. cbn [run_spec].
+    destruct (exec_spec cfg st o1) as [[st1 ob1] ev1]. destruct (exec_spec cfg st1 o2) as [[st2 ob2] ev2]. reflexivity.
+  - rewrite nth_error_app2 by lia. rewrite Hl. replace (S (length ops) - length ops) with 1 by lia. cbn [run_spec].
+    destruct (exec_spec cfg st o1) as [[st1 ob1] ev1]. cbn [fst snd]. destruct (exec_spec cfg st1 o2) as [[st2 ob2] ev2]. reflexivity.
+Qed.
+
+(** [latest_is_last]: at any point of any history on the memory-store model (every cap and
+    size limit), GetMessage("latest") answers the last element of what GetMessages lists, and
+    NotExist when the listing is empty. *)
+Theorem latest_is_last cfg ops mb :
+  exists l, nth_error (map fst (run_mem cfg (ops ++ [Lst mb; Get mb Latest]))) (length ops) = Some (OList l) /\
+            nth_error (map fst (run_mem cfg (ops ++ [Lst mb; Get mb Latest]))) (S (length ops)) = Some (OGet (res_of_last l)).
+Proof.
+  exists (map view_of (box mb (live (final_spec cfg spec_init ops)))). rewrite mem_refines_spec.
+  destruct (run_spec_two cfg ops (Lst mb) (Get mb Latest)) as [H1 H2]. rewrite H1, H2.
+  split; [reflexivity | f_equal; exact (proj2 (latest_is_last_spec cfg (final_spec cfg spec_init ops) mb))].
+Qed.
+
+Theorem latest_is_last_file cfg ticks ops mb :
+  c_max cfg = 0%N -> file_fresh cfg (file_init ticks, []) (ops ++ [Lst mb; Get mb Latest]) ->
+  exists l, nth_error (map fst (run_file cfg ticks (ops ++ [Lst mb; Get mb Latest]))) (length ops) = Some (OList l) /\
+            nth_error (map fst (run_file cfg ticks (ops ++ [Lst mb; Get mb Latest]))) (S (length ops)) = Some (OGet (res_of_last l)).
+Proof.
+  intros Hm Hf. exists (map view_of (box mb (live (final_spec cfg spec_init ops)))). rewrite file_refines_spec by assumption.
+  destruct (run_spec_two cfg ops (Lst mb) (Get mb Latest)) as [H1 H2]. rewrite H1, H2.
+  split; [reflexivity | f_equal; exact (proj2 (latest_is_last_spec cfg (final_spec cfg spec_init ops) mb))].
+Qed.
+
+Lemma find_set_seen mb k l :
+  find (is_ent mb k) (set_seen mb k l) =
+  option_map (fun e => {| e_mb := e_mb e; e_k := e_k e; e_msg := msg_set_seen (e_msg e) |}) (find (is_ent mb k) l).
+Proof.
+  unfold set_seen. induction l as [|e l IH]; [reflexivity|]. cbn [map find].
+  destruct (is_ent mb k e) eqn:Q.
+  - assert (is_ent mb k {| e_mb := e_mb e; e_k := e_k e; e_msg := msg_set_seen (e_msg e) |} = true) as -> by exact Q. reflexivity.
+  - rewrite Q. exact IH.
+Qed.
+
+(** [read_back_as_written] (abstract store): a delivered message that fits reads back with the
+    date, content tag and size it was delivered with and unseen; after MarkSeen it reads back
+    seen and otherwise unchanged. *)
+Theorem read_back_as_written_spec cfg st mb date tag size :
+  SInv st -> (c_max cfg = 0 \/ size <= c_max cfg)%N ->
+  let k := count_of mb (counts st) in
+  let st1 := fst (fst (exec_spec cfg st (Add mb date tag size))) in
+  snd (fst (exec_spec cfg st1 (Get mb (Kth k)))) =
+    OGet (Ok (k, {| m_date := date; m_tag := tag; m_size := size; m_seen := false |})) /\
+  snd (fst (exec_spec cfg st1 (Seen mb (Kth k)))) = OUnit (Ok tt) /\
+  snd (fst (exec_spec cfg (fst (fst (exec_spec cfg st1 (Seen mb (Kth k))))) (Get mb (Kth k)))) =
+    OGet (Ok (k, {| m_date := date; m_tag := tag; m_size := size; m_seen := true |})).
+Proof.
+  intros HI Hfit k st1.
+  pose proof (fits_then_retrievable_spec cfg st mb date tag size HI Hfit) as H. cbv zeta in H. fold k in H.
+  unfold st1. cbn [exec_spec] in *. destruct (spec_add cfg st mb _) as [[st' k'] evs] eqn:Ea. cbn [fst snd] in *.
+  injection H as Hk Hfind. subst k'. cbn [find_h] in *.
+  destruct (find (is_ent mb k) (live st')) as [e|] eqn:F; [|discriminate]. cbn [res_of_find] in Hfind.
+  unfold view_of in Hfind. inversion Hfind as [[Hk Hm]].
+  split; [cbn [res_of_find]; unfold view_of; rewrite Hk, Hm; reflexivity|]. split; [reflexivity|].
+  cbn [fst snd live]. rewrite Hk. rewrite find_set_seen, F. cbn [option_map res_of_find view_of e_k e_msg].
+  rewrite Hk, Hm. reflexivity.
+Qed.
+
+Lemma run_spec_nth cfg : forall ops1 st o ops2,
+  nth_error (map fst (run_spec cfg st (ops1 ++ o :: ops2))) (length ops1) =
+  Some (snd (fst (exec_spec cfg (final_spec cfg st ops1) o))).
+Proof.
+  induction ops1 as [|a ops1 IH]; intros st o ops2.
+  - cbn [app length run_spec final_spec]. destruct (exec_spec cfg st o) as [[st' ob] evs]. reflexivity.
+  - cbn [app length run_spec final_spec]. destruct (exec_spec cfg st a) as [[st' ob] evs]. cbn [map nth_error]. apply IH.
+Qed.
+
+Lemma final_spec_app cfg : forall a st b, final_spec cfg st (a ++ b) = final_spec cfg (final_spec cfg st a) b.
+Proof.
+  induction a as [|o a IH]; intros st b; [reflexivity|]. cbn [app final_spec].
+  destruct (exec_spec cfg st o) as [[st' ob] evs]. apply IH.
+Qed.
+
+(** [read_back_as_written] on the memory-store model: at any point of any history, any cap and
+    size limit. *)
+Theorem read_back_as_written cfg ops mb date tag size :
+  (c_max cfg = 0 \/ size <= c_max cfg)%N ->
+  let k := count_of mb (counts (final_spec cfg spec_init ops)) in
+  let h := ops ++ [Add mb date tag size; Get mb (Kth k); Seen mb (Kth k); Get mb (Kth k)] in
+  nth_error (map fst (run_mem cfg h)) (S (length ops)) =
+    Some (OGet (Ok (k, {| m_date := date; m_tag := tag; m_size := size; m_seen := false |}))) /\
+  nth_error (map fst (run_mem cfg h)) (S (S (S (length ops)))) =
+    Some (OGet (Ok (k, {| m_date := date; m_tag := tag; m_size := size; m_seen := true |}))).
+Proof.
+  intros Hfit k h. unfold h. rewrite mem_refines_spec.
+  pose proof (read_back_as_written_spec cfg (final_spec cfg spec_init ops) mb date tag size
+                (final_spec_SInv cfg ops spec_init SInv_init) Hfit) as [H1 [H2 H3]]. fold k in H1, H2, H3.
+  set (A := Add mb date tag size) in *. set (G := Get mb (Kth k)) in *. set (S1 := Seen mb (Kth k)) in *.
+  split.
+  - pose proof (run_spec_nth cfg (ops ++ [A]) spec_init G [S1; G]) as Hn.
+    rewrite <- app_assoc in Hn. cbn [app] in Hn. rewrite app_length in Hn. cbn [length] in Hn.
+    replace (length ops + 1) with (S (length ops)) in Hn by lia. rewrite Hn.
+    rewrite final_spec_app. cbn [final_spec]. destruct (exec_spec cfg (final_spec cfg spec_init ops) A) as [[st1 ob1] ev1].
+    cbn [fst snd] in *. rewrite H1. reflexivity.
+  - pose proof (run_spec_nth cfg (ops ++ [A; G; S1]) spec_init G []) as Hn.
+    rewrite <- app_assoc in Hn. cbn [app] in Hn. rewrite app_length in Hn. cbn [length] in Hn.
+    replace (length ops + 3) with (S (S (S (length ops)))) in Hn by lia. rewrite Hn.
+    rewrite final_spec_app. cbn [final_spec]. destruct (exec_spec cfg (final_spec cfg spec_init ops) A) as [[st1 ob1] ev1].
+    cbn [fst snd] in *.
+    assert (HG : fst (fst (exec_spec cfg st1 G)) = st1) by (unfold G; cbn [exec_spec]; reflexivity).
+    destruct (exec_spec cfg st1 G) as [[st2 ob2] ev2]. cbn [fst] in HG. subst st2.
+    destruct (exec_spec cfg st1 S1) as [[st3 ob3] ev3]. cbn [fst snd] in *. rewrite H3. reflexivity.
+Qed.
